@@ -179,6 +179,49 @@ Section RangeBlock.
       rewrite G2, Hrg1. exact Hclear.
     - rewrite !filter_app, (emit_outside FR p pre s1 Hp), D1. reflexivity.
   Qed.
+
+  (* falco-ignore-start before a statement of a block and NO end: inside the block exactly that statement and the ones
+     after it are covered; what the statements before it queued (unused variables declared before the start comment) is
+     untouched; when the block is left the two runs differ only by the open range (RS) *)
+  Lemma range_open_in_block m pre before ki after k1 p s qv qp :
+    range_free_meta m = true -> forallb range_free before = true ->
+    range_free ki = true -> forallb range_free after = true ->
+    let FR := region_filter p (length before) (S (length after)) L in
+    let r := run (Node WBlock m false pre [] [] (before ++ ki :: after)) p s qv qp in
+    let r' := run (Node WBlock m false pre [] [] (before ++ add_leading k1 c1 ki :: after)) p s (filter FR qv) (filter FR qp) in
+    RS L (r_st r) (r_st r') /\ r_qv r' = filter FR (r_qv r) /\ r_qp r' = filter FR (r_qp r) /\ r_out r' = filter FR (r_out r).
+  Proof.
+    intros Hm Hb Hfi Hfa FR. cbn zeta. destruct (rfm_split m Hm) as (M1 & M2 & M3).
+    rewrite !run_node. cbn zeta. unfold inner. rproj.
+    set (s1 := setup WBlock m s).
+    assert (Hp : forall r, FR (p, r) = true).
+    { intros r. unfold FR, region_filter. cbn [fst snd]. rewrite in_region_self. reflexivity. }
+    rewrite !run_kids_app. cbn zeta. rproj.
+    destruct (outside_kids' FR before p 0 s1 qv qp) as (A1 & B1 & C1 & D1).
+    { intros j p' r Hj Hp'. unfold FR, region_filter. cbn [fst snd].
+      rewrite (in_region_out p (length before) (S (length after)) j p'); auto. lia. }
+    rewrite A1, B1, C1.
+    set (r1 := run_kids before p 0 s1 qv qp) in *.
+    destruct (region_run L c1 Hc1 p (length before) ki after Hfi Hfa k1 (r_st r1) (r_qv r1) (r_qp r1))
+      as (RS2 & G2 & B2 & C2 & D2). cbn zeta in RS2, G2, B2, C2, D2. fold FR in RS2, B2, C2, D2.
+    cbn [Nat.add]. rewrite B2, C2, D2.
+    set (r2 := run_kids (ki :: after) p (length before) (r_st r1) (r_qv r1) (r_qp r1)) in *.
+    set (r2' := run_kids (add_leading k1 c1 ki :: after) p (length before) (r_st r1) (filter FR (r_qv r1)) (filter FR (r_qp r1))) in *.
+    cbn [emit filter map app]. rewrite !app_nil_r.
+    split; [|split; [reflexivity|split; [reflexivity|]]].
+    - assert (St : stack (r_st r2) = (nl s, tl s) :: stack s).
+      { destruct (run_kids_restores' (ki :: after) p (length before) (r_st r1) (r_qv r1) (r_qp r1)) as (_ & _ & E).
+        fold r2 in E. rewrite E.
+        destruct (run_kids_restores' before p 0 s1 qv qp) as (_ & _ & E'). fold r1 in E'. rewrite E'.
+        unfold s1. apply setup_stack. }
+      destruct RS2 as (E1 & E2 & E3 & E4).
+      assert (St' : stack (r_st r2') = (nl s, tl s) :: stack s) by congruence.
+      destruct (teardown_restores WBlock m _ _ _ _ St) as (T1 & T2 & T3).
+      destruct (teardown_restores WBlock m _ _ _ _ St') as (T1' & T2' & T3').
+      unfold RS. repeat split; try congruence.
+      rewrite !rg_teardown_free by exact Hm. exact E4.
+    - rewrite !filter_app, (emit_outside FR p pre s1 Hp), D1. reflexivity.
+  Qed.
 End RangeBlock.
 
 (* ------------------------------------------------------------------ whole programs *)
@@ -258,7 +301,7 @@ Section Whole.
       + rewrite filter_app, emit_outside by exact Hp. destruct fl; reflexivity.
       + rewrite filter_app, emit_outside by exact Hp. reflexivity.
       + rewrite !filter_app, emit_outside by exact Hp. rewrite D1. rewrite <- !app_assoc. f_equal. f_equal. f_equal.
-        destruct fl; auto. unfold flush_queue. apply filter_comm.
+        destruct fl; auto.
     - intros n p s qv qp Hn Hs. rewrite rg_unchanged by exact Hn. exact Hs.
     - intros w0 m0 fl0 pre0 ls0 lp0 kids0 s Hn Hs. cbn in Hn. apply andb_true_iff in Hn. destruct Hn as [Hm0 _].
       rewrite rg_setup_free by exact Hm0. exact Hs.
